@@ -26,7 +26,7 @@ type CrashParams struct {
 	// failing writer call (the file ran full) onwards
 	FromFirstFailure bool
 	// Base: durable content before the first logged op (second level enumeration)
-	Base []byte
+	Base  []byte
 	level int
 }
 
